@@ -47,7 +47,7 @@ def required_cells(tier):
             "class:E", "class:R", "resolved-set-compared", "table-compared", "header-dir-outside-root",
             "outside-header-read", "include-depth>=40", "include-depth>=70", "headers-differing-in-case",
             "guard-undefined-then-reincluded", "directory-named-like-header-on-search-path", "include-spelled-with-dotdot",
-            "dotdot-include-resolved-through-search-directory", "include-spelled-with-dotdot-after-directory-link", "directory-named-by-I-and-isystem", "translation-unit-outside-root-includes-member-headers", "same-named-file-in-root-off-every-search-path", "forced-include-without-recognised-extension", "quote-include-inside-header-opened-through-file-link", "directory-named-twice-by-I", "environment:CPATH-names-header-directories",
+            "dotdot-include-resolved-through-search-directory", "include-spelled-with-dotdot-after-directory-link", "directory-named-by-I-and-isystem", "header-name-with-blank:angle", "header-name-with-blank:quote", "translation-unit-outside-root-includes-member-headers", "same-named-file-in-root-off-every-search-path", "forced-include-without-recognised-extension", "quote-include-inside-header-opened-through-file-link", "directory-named-twice-by-I", "environment:CPATH-names-header-directories",
             "headers-with-unknown-or-no-extension", "header-names-outside-ascii"]
 
 
@@ -260,6 +260,10 @@ def check_case(ctx, case, base, cls, extra_cells=()):
         cells.add("headers-with-unknown-or-no-extension")
     if ev is not None and any(e[0] == "inc" and "\u00e4" in e[2] and e[5] for e in ev.events):
         cells.add("header-names-outside-ascii")
+    if ev is not None and any(e[0] == "inc" and " " in e[2] and e[4] and e[5] for e in ev.events):
+        cells.add("header-name-with-blank:angle")
+    if ev is not None and any(e[0] == "inc" and " " in e[2] and not e[4] and e[5] for e in ev.events):
+        cells.add("header-name-with-blank:quote")
     if ev is not None:
         for e in ev.events:
             if e[0] == "inc" and e[2].startswith("lk_side") and e[5]:
